@@ -351,7 +351,7 @@ fn check_program(rep: &Report, slots: &[Slot], idx: usize, env: &drive::Env) {
                     continue;
                 }
             };
-            let inst_built = drive::Built { template: template.clone(), compiled, cmr, fresh: None, fresh_runs: Default::default(), fresh_pruned_runs: Default::default() };
+            let inst_built = drive::Built { template: template.clone(), compiled, cmr, fresh: None, fresh_runs: Default::default(), fresh_pruned_runs: Default::default(), runs: Default::default(), first_run: Default::default(), pruned_calls: Default::default(), first_pruned: Default::default() };
             if inst_built.cmr == sub_built.cmr {
                 rep.class("equal-cmr");
             } else {
